@@ -107,6 +107,31 @@ Theorem C11_stackn_pinned_refuted :
 Proof. exact stackn_fits_pinned_refuted. Qed.
 
 
+(* ---- histories ---- *)
+From AV.Model Require Import Ops Interp.
+From AV.Proofs Require Import Ledger.
+(** EVERY HISTORY OF THE MACHINE (AV.Proofs.Ledger, instance 2): a world without heap-backed vectors stays one under every operation of the case language that does not itself build a heap-backed vector ([heapfree_op]), whatever the outcome (ok, panic, any armed panic fuse), and the step appends no allocator event; by induction no history of such steps does. *)
+Theorem C11_step_never_allocates :
+  forall (c : cfg) (fuse : option N) (o : op) (w : world),
+         heapless (wv w) ->
+         heapfree_op o -> heapless (wv (sr_world (run_step c fuse o w))) /\ noalloc (step_events c fuse o w).
+Proof. exact step_noalloc. Qed.
+
+Theorem C11_history_never_allocates :
+  forall (c : cfg) (steps : list (option N * op)) (w : world),
+         heapless (wv w) ->
+         Forall (fun fo : option N * op => heapfree_op (snd fo)) steps ->
+         noalloc (fst (run_steps c steps w)) /\ heapless (wv (snd (run_steps c steps w))).
+Proof. exact history_noalloc. Qed.
+
+(** non-vacuity: StackN<3,16> filled beyond its capacity, cloned, spliced beyond it, cleared with a panicking destructor; the user-defined backend and Empty beside it *)
+Theorem C11_history_example :
+  fst (run_steps lx_cfg nx_steps init_world) =
+         [EDrop 4; EClone 1 5; EClone 2 6; EClone 3 7; EBuild 3 1; EResize 5; EDrop 9; EDrop 10; EDrop 5] /\
+         world_lens (snd (run_steps lx_cfg nx_steps init_world)) = [None; Some 0; Some 1; Some 0].
+Proof. exact nx_events. Qed.
+
+(* ---- end histories ---- *)
 Print Assumptions C11_stack_capacity.
 Print Assumptions C11_stackn_capacity.
 Print Assumptions C11_push_beyond.
@@ -116,3 +141,6 @@ Print Assumptions C11_expand_panics.
 Print Assumptions C11_no_allocator_events.
 Print Assumptions C11_clone_fits.
 Print Assumptions C11_stackn_pinned_refuted.
+Print Assumptions C11_step_never_allocates.
+Print Assumptions C11_history_never_allocates.
+Print Assumptions C11_history_example.
